@@ -105,9 +105,10 @@ def main():
         tmp = os.path.join(HERE, 'evidence', prop + '.json.tmp')
         json.dump(ev, open(tmp, 'w'), indent=1)
         os.replace(tmp, os.path.join(HERE, 'evidence', prop + '.json'))
-    print('%s tier=%s points=%d states=%d transitions=%d comparisons=%d distinct_outcomes=%d new_classes=%d known=%d wall=%.1fs'
+    slow = max([(p.get('extra', {}).get('max_point_cpu_s', 0), p['name']) for p in cov['subchecks']] or [(0, '-')])
+    print('%s tier=%s points=%d states=%d transitions=%d comparisons=%d distinct_outcomes=%d new_classes=%d known=%d slowest_point=%ds(%s) wall=%.1fs'
           % (prop, a.tier, cov['evaluations'], cov['states'], cov['transitions'],
-             cov['traces_validated_against_impl'], cov['distinct_nontrivial'], len(new), len(seen_known), time.time() - t0))
+             cov['traces_validated_against_impl'], cov['distinct_nontrivial'], len(new), len(seen_known), slow[0], slow[1], time.time() - t0))
     if rc == 2:
         return 2
     return 1 if new else 0
@@ -122,14 +123,12 @@ def replay(prop, subs, path):
     sub = sub[0]
     ctx = engine.Ctx(prop, sub.name)
     pt = engine.unjson(rp['point'])
-    import signal
-    signal.signal(signal.SIGALRM, engine._alarm)
     try:
-        signal.alarm(engine.POINT_TIMEOUT)
+        engine.arm()
         try:
             sub.run(ctx, pt)
         finally:
-            signal.alarm(0)
+            engine.disarm()
     except engine.PointTimeout as e:
         ctx.fail('%s/%s/point-timeout' % (prop, sub.name), 'the point completes', str(e))
     except Exception as e:
